@@ -231,8 +231,8 @@ __archive_write_filter(struct archive_write_filter *f,
     const void *buff, size_t length)
 {
 	int r;
-	/* Never write to non-open filters */
-	if (f->state != ARCHIVE_WRITE_FILTER_STATE_OPEN)
+	/* Never write to non-open filters (there is none before open) */
+	if (f == NULL || f->state != ARCHIVE_WRITE_FILTER_STATE_OPEN)
 		return(ARCHIVE_FATAL);
 	if (length == 0)
 		return(ARCHIVE_OK);
